@@ -15,7 +15,8 @@ position and every serde(default) removed.  For each of the six languages
     from the source (Option depth and bare default: the generator's ground truth, cross-checked with the
     extracted Spec.C04Spec.c04_file_cells on the syn AST) and the twin's type text at the same position
     ("the marker never changes the underlying type").
-The marker matrix (17 base types x depth 0..2 x default spelling x position) is enumerated on every run."""
+The marker matrix (17 base types x depth 0..2 x 7 default spellings x 4 positions) and the wrapper matrix (10 wrappers x 8
+placements around / between / inside the Option layers x 4 positions) are enumerated on every run."""
 import json, re
 import vf, ir, irgen, extract, back
 from vf import S, B, Lst
@@ -246,6 +247,24 @@ def matrix_program(base, k):
     return Prog(items)
 
 
+def wrapper_program(w, base, k):
+    """one reference / smart pointer at every place of the Option layers, at the four positions"""
+    nm = Namer()
+    W = (lambda t: ('ref', t)) if w == '&' else (lambda t: ('wrap', w, t, ''))
+    tys = [W(base), W(opt(base)), opt(W(base)), W(opt(opt(base))), opt(W(opt(base))), opt(opt(W(base))), W(opt(W(opt(W(base))))), W(W(opt(base)))]
+    fields = [Cell(nm('f'), 'field', t, d) for t in tys for d in ('none', 'bare')]
+    vfields = [Cell(nm('g'), 'variant_field', t, d) for t in tys for d in ('none', 'merged')]
+    vs = []
+    for t in tys:
+        n = nm('V')
+        vs.append(('newtype', n, Cell(n, 'payload', t)))
+    items = [('struct', f'S{k:03d}', [], fields), ('enum', f'E{k:03d}', [], vs + [('struct', nm('W'), vfields)])]
+    for t in tys:
+        n = nm('A')
+        items.append(('alias', n, [], Cell(n, 'alias', t)))
+    return Prog(items)
+
+
 def random_type(rng, depth, gens):
     c = rng.random()
     if depth <= 0 or c < 0.4:
@@ -455,18 +474,25 @@ def run(chk):
                        'what the generated text MEANS to the target language is the reading of Spec/C04Readers.v + lib/extract.py (no target compilers installed)',
                        'type overrides (#[typeshare(lang(type = ..))], serialized_as), type_mappings keyed on an Option<..> display and Go no_pointer_slice are outside '
                        'the property\'s quantifier and are not generated']
+    chk.notes += [
+        'note (not a violation): Kotlin prints `T?? = null` for Option<Option<T>> - legal, redundant; the property asks for a distinguishable double Option only of TypeScript',
+        'note (not a violation): a TypeScript alias of Option<T> is `type A = T | undefined` - the alias form of the optional idiom (a type has no `?` key)',
+        'note (outside the quantifier): a Kotlin/Swift/Scala/Go/TS type override on an Option field keeps the marker suffix around the user text (Kotlin `Any = null`); overrides are not generated',
+        'note (outside the quantifier): serde(default) on the field of a newtype variant is ignored by typeshare - and by serde_derive itself (deserialize_newtype_variant never consults it)']
     chk.prepare(need_cli=False)
     if not chk.harness_ok:
         return
     rng = chk.rng
     progs = [('matrix', matrix_program(b, k), {l: dict(BASE_CFG.get(l, {})) for l in LANGS}) for k, b in enumerate(BASES)]
-    nrand = 160 if chk.tier == 'quick' else 4000
+    for k, w in enumerate(WRAPS + ['&']):
+        progs.append(('wrapper', wrapper_program(w, BASES[(3 * k) % 15], k), {l: dict(BASE_CFG.get(l, {})) for l in LANGS}))
+    nrand = 500 if chk.tier == 'quick' else 12000
     for k in range(nrand):
         progs.append(('random', random_program(rng, k), {l: random_cfg(rng, l) for l in LANGS}))
     judge_programs(chk, progs)
     # random IR item sets (lib/irgen.py): states the parser cannot produce (has_default on anything, dashed keys, keywords, decorators)
     g = irgen.Gen(rng, edge=0.15, langs_with_datetime=False)
-    nir = 120 if chk.tier == 'quick' else 3000
+    nir = 300 if chk.tier == 'quick' else 8000
     judge_ir_sets(chk, [g.items(1, 4) for _ in range(nir)])
     import os
     if os.environ.get('C04_DEBUG'):
